@@ -33,9 +33,19 @@ ROT = {"rot_x": vanilla.RotXInstruction, "rot_y": vanilla.RotYInstruction, "rot_
 TWO = {"cnot": vanilla.CnotInstruction, "cphase": vanilla.CphaseInstruction, "mov": vanilla.MovInstruction}
 
 
-def transpile_gate(mn: str, ids: List[int], imm: Optional[List[int]], debug=False):
+Rr = lambda i: Register(RegisterName.R, i)
+
+
+def transpile_gate(mn: str, ids: List[int], imm: Optional[List[int]], debug=False, unknown=False):
     """Real transpiler on `set Q0 a; [set Q1 b;] gate`.  Returns the emitted gate
-    sequence with registers resolved to virtual qubit ids, as executed."""
+    sequence with registers resolved to virtual qubit ids, as executed.
+    unknown: the operands of a mov are R registers (values not known to the transpiler), as the SDK emits when it
+    moves a fresh pair from the communication qubit into memory"""
+    if unknown:
+        instrs0: List[Any] = [core.SetInstruction(reg=Rr(1 - i), imm=Immediate(v)) for i, v in enumerate(ids)]
+        instrs0.append(TWO[mn](reg0=Rr(1), reg1=Rr(0)))
+        out0 = NVSubroutineTranspiler(Subroutine(instructions=instrs0, app_id=0), debug=debug).transpile()
+        return resolve(out0.instructions)
     instrs: List[Any] = [core.SetInstruction(reg=Q(i), imm=Immediate(v)) for i, v in enumerate(ids)]
     if mn in ONE:
         instrs.append(ONE[mn](reg=Q(0)))
@@ -72,13 +82,13 @@ def resolve(instructions) -> List[Dict[str, Any]]:
 
 def cases(tier: str, rng: random.Random):
     rows = []
-    def add(mn, ids, imm, kind="unitary", hw=False):
+    def add(mn, ids, imm, kind="unitary", hw=False, unknown=False):
         src = [{"mn": mn, "qs": [i + 1 for i in ids], "imm": imm or []}]
         row = {"id": len(rows) + 1, "prop": "C07", "kind": kind, "src": src, "mov": [ids[0] + 1, ids[1] + 1] if kind == "mov" else [1, 1],
                "gate": mn, "ids": ids, "hw": hw, "err": ""}
         settings.set_is_using_hardware(hw)
         try:
-            row["tgt"] = transpile_gate(mn, ids, imm, debug=(len(rows) % 5 == 0))
+            row["tgt"] = transpile_gate(mn, ids, imm, debug=(len(rows) % 5 == 0), unknown=unknown)
         except Exception as ex:
             row["tgt"] = []
             row["err"] = f"{type(ex).__name__}: {ex}"[:200]
@@ -95,6 +105,9 @@ def cases(tier: str, rng: random.Random):
                     add(mn, [a, b], None)
     for a, b in ((0, 1), (1, 0), (0, 2), (2, 0)):
         add("mov", [a, b], None, kind="mov")
+    # operands the transpiler cannot know (R registers): documented to be the move from the communication qubit to memory
+    for b in (1, 2):
+        add("mov", [0, b], None, kind="mov", unknown=True)
     nd = [(n, d) for d in range(0, 9) for n in ({0, 1, 2, 3, 2**d, 2**(d + 1) - 1, 2**(d + 1), 255} if tier == "quick" else range(256))]
     nd += [(n, d) for d in (9, 16, 20) for n in (1, 3, 255)]
     nd += [(rng.randrange(256), rng.randrange(0, 21)) for _ in range(300 if tier == "quick" else 10000)]
